@@ -139,6 +139,16 @@ def corpus(ctx):
         out.append(("%s+pad%d" % (rel, upto), {"isa": isa, "arch": arch, "text": lcd_par.pad_text(text, isa, upto, rng)}))
         if ctx.tier == "thorough" or rng.random() < 0.4:
             out.append((rel, {"isa": isa, "arch": arch, "text": text}))
+    # interlocking recurrences: every member of a cycle is also directly self-dependent / cycles that share members (a search that
+    # prunes roots or paths "already covered" differs between the sequential generator and the per-section workers exactly here)
+    bodies = [("coupled-x86", "x86", "zen3", "vaddsd %xmm1, %xmm0, %xmm0\nvaddsd %xmm0, %xmm1, %xmm1\n"),
+              ("ring3-x86", "x86", "zen2", "vaddsd %xmm2, %xmm0, %xmm0\nvaddsd %xmm0, %xmm1, %xmm1\nvaddsd %xmm1, %xmm2, %xmm2\n"),
+              ("covered-x86", "x86", "zen2", "vaddsd %xmm4, %xmm0, %xmm2\nvaddsd %xmm4, %xmm1, %xmm3\nvdivsd %xmm2, %xmm1, %xmm0\nvdivsd %xmm3, %xmm0, %xmm1\n"),
+              ("coupled-a64", "aarch64", "n1", "fadd d0, d0, d1\nfadd d1, d1, d0\n"),
+              ("ring3-a64", "aarch64", "tx2", "fadd d0, d0, d2\nfadd d1, d1, d0\nfadd d2, d2, d1\n")]
+    for name, isa, arch, body in (bodies if ctx.tier == "thorough" else [bodies[i] for i in rng.sample(range(len(bodies)), 3)]):
+        out.append((name, {"isa": isa, "arch": arch, "text": body}))
+        out.append(("%s+pad" % name, {"isa": isa, "arch": arch, "text": lcd_par.pad_text(body, isa, rng.choice([50, 53, 64]), rng)}))
     ngen = ctx.n(6, 24)
     archs = {"x86": ["zen2", "zen1", "icx", "zen3"], "aarch64": ["a64fx", "tx2", "n1"]}
     cands = []
